@@ -378,7 +378,21 @@ func runC16(x *X) *Violation {
 			m.tests = append(append([]c16cb(nil), src.m.tests...), other.m.tests...)
 			m.pts = append(append([]c16cb(nil), src.m.pts...), other.m.pts...)
 			desc += fmt.Sprintf(" other=#%d", oi)
-			live = append(live, &c16live{real: src.real.Merge(other.real), m: m})
+			var more []*z.StructSchema
+			if op.Collect == "mixed" || op.Collect == "map" {
+				// Merge(other, others...): later operands win, tests and transforms are concatenated in order
+				for k := 1; k <= 1+op.ErrAt; k++ {
+					o2 := live[(oi+k)%len(live)]
+					for kk, v := range o2.m.fields {
+						m.fields[kk] = v
+					}
+					m.tests = append(m.tests, o2.m.tests...)
+					m.pts = append(m.pts, o2.m.pts...)
+					more = append(more, o2.real)
+					desc += fmt.Sprintf(",#%d", (oi+k)%len(live))
+				}
+			}
+			live = append(live, &c16live{real: src.real.Merge(other.real, more...), m: m})
 		case "test", "pt":
 			cbid++
 			cb := c16cb{ID: c*100 + cbid, Kind: op.Arg, Fail: op.ErrAt == 1 && op.Arg == "test"}
